@@ -496,25 +496,25 @@ def main(tier):
     rep.trusted = ['nasm/clang constant evaluation', 'tools/gf2.py polynomial arithmetic', 'published CRC catalogue check values']
     units = asmdb.units('default')
     rep.analysed = dict(asm_units=[u for u in units if u.startswith('crc/')], c_units=['crc/crc_base.c', 'crc/crc64_base.c', 'igzip/adler32_base.c'])
-    check_tables(rep)
-    check_pairing(rep)
-    check_rk(rep, units)
-    check_iscsi_merge(rep, units)
-    check_adler(rep)
+    rep.attempt(check_tables, rep)
+    rep.attempt(check_pairing, rep)
+    rep.attempt(check_rk, rep, units)
+    rep.attempt(check_iscsi_merge, rep, units)
+    rep.attempt(check_adler, rep)
     try:
         import c04_store
         c04_store.check(rep, units)
     except ImportError:
         pass
-    check_inversion(rep)
-    check_base_step(rep)
+    rep.attempt(check_inversion, rep)
+    rep.attempt(check_base_step, rep)
     import crcfold
-    crcfold.check(rep, 400)
+    rep.attempt(crcfold.check, rep, 400)
     import copypair
-    copypair.check(rep, 46)
+    rep.attempt(copypair.check, rep, 46)
     import bounds
-    bounds.check(rep, {'crc', 'crc_copy', 'adler'}, 'CRC', 30)
-    bounds.check_len_width(rep, {'crc', 'crc_copy', 'adler'}, 'CRC', 31)
+    rep.attempt(bounds.check, rep, {'crc', 'crc_copy', 'adler'}, 'CRC', 30)
+    rep.attempt(bounds.check_len_width, rep, {'crc', 'crc_copy', 'adler'}, 'CRC', 31)
     import stridecover
-    stridecover.check(rep, 'CRC', {'crc', 'crc_copy', 'adler'}, 80)
+    rep.attempt(stridecover.check, rep, 'CRC', {'crc', 'crc_copy', 'adler'}, 80)
     return rep.finish()
